@@ -25,7 +25,7 @@ WORKERS = {"quick": 4, "thorough": 16}
 
 def plan(tier, seed):
     n = 4 if tier == "quick" else 16
-    per = 250 if tier == "quick" else 1500
+    per = 250 if tier == "quick" else 3000
     return [{"tier": tier, "seed": seed, "shard": i, "start": i * per, "count": per, "legacy": 150 if tier == "quick" else 600} for i in range(n)]
 
 
